@@ -1286,4 +1286,6 @@ REPLAY["skeleton"] = replay_skeleton
 REPLAY["src"] = c13.replay_src
 
 from suites import thorough as _th
-GROUPS["thorough:skeletons"] = _th.bounded_from_replay("bounded/control-flow-skeletons-depth-2-x-3-schedules", replay_skeleton)
+GROUPS["thorough:skeletons"] = _th.bounded_from_replay("bounded/control-flow-skeletons-depth-2-x-6-schedules", replay_skeleton)
+for _i in range(1, 6):  # further samples of the 19695 depth-2 blocks (different shuffles), in parallel groups
+    GROUPS[f"thorough:skeletons:{_i}"] = _th.bounded_from_replay(f"bounded/control-flow-skeletons-depth-2-x-6-schedules/sample-{_i}", replay_skeleton, rp=dict(seed=100 + _i))
